@@ -467,6 +467,11 @@ def expand(dataset):
     # The variable pairs is useless now:
     expanded = expanded.drop_vars("Collocations/pairs")
 
-    expanded = expanded.rename({"Collocations/collocation": "collocation"})
+    # The remaining variables of the Collocations group (interval, distance)
+    # are optional, i.e. their dimension might have vanished with the pairs:
+    if "Collocations/collocation" in expanded.dims:
+        expanded = expanded.rename(
+            {"Collocations/collocation": "collocation"}
+        )
 
     return expanded
